@@ -203,8 +203,14 @@ def check(run: Run) -> None:
         cn = R.aliases_of(fa)
         st = fa.body.stmts
         run.count(1, "C20.e.prefix")
-        pre = [cn(s.cond) for s in st if isinstance(s, C.If) and any(isinstance(x, C.Return) for x in s.then.stmts if True)][:2] if True else []
-        pre = [cn(s.cond) for s in st[:3] if isinstance(s, C.If)]
+        # the returning guards at the top level of the body, in order, up to the first statement that is not a guard or a declaration
+        # (position independent: a trace line or a local before / between them changes nothing)
+        pre = []
+        for s0 in st:
+            if isinstance(s0, C.If) and s0.els is None and any(isinstance(x, C.Return) for x in s0.then.walk()):
+                pre.append(cn(s0.cond))
+            elif isinstance(s0, (C.While, C.For, C.RangeFor, C.DoWhile)):
+                break
         if pre[:1] != ["!ts.modified()"] or not any(p.startswith("!delta_is_observable(") for p in pre):
             run.finding("C20.e", "dense_record:gates", f"the recorder must return iff the input did not tick / the delta is unobservable: {pre}", loc=MEM)
         d = {x.name: cn(x.init) for x in R.find(fa, lambda n: isinstance(n, C.Declarator) and n.init is not None)}
